@@ -207,7 +207,13 @@ func runC15(tier string, seed int64) int {
 					set[n] = CompileDir(Repo, n)
 				}
 			}
-			vs := contractVersions(set)
+			vs, failure := contractVersions(set)
+			if failure != "" {
+				// the set cannot be deployed at all: one violation (the order clause above usually names the cause), not eleven
+				res.evals++
+				add("version-unreadable", fmt.Sprintf("the %s contract set cannot be deployed to read version(): %s", src, failure), map[string]any{"artefact": src})
+				continue
+			}
 			for _, n := range all {
 				res.evals++
 				res.nontrivial["version/"+src+"/"+n] = true
@@ -384,9 +390,13 @@ func tryDeployOrder(set map[string]*Compiled, order []string) (ok bool, msg stri
 	return true, ""
 }
 
-func contractVersions(set map[string]*Compiled) map[string]int64 {
-	out := map[string]int64{}
-	defer func() { recover() }()
+func contractVersions(set map[string]*Compiled) (out map[string]int64, failure string) {
+	out = map[string]int64{}
+	defer func() {
+		if r := recover(); r != nil {
+			failure = fmt.Sprint(r)
+		}
+	}()
 	w := NewWorld(1)
 	defer w.Close()
 	for _, n := range append(append([]string{}, fsOrder...), mainOrder...) {
@@ -404,7 +414,7 @@ func contractVersions(set map[string]*Compiled) map[string]int64 {
 			out[n] = -1
 		}
 	}
-	return out
+	return out, ""
 }
 
 // ---------- bindings ----------
